@@ -21,6 +21,10 @@ type solverSpec struct {
 var solvers = []solverSpec{
 	{"z3-new", func(f string, ms int) []string { return []string{"-smt2", "-T:" + itoa(ms/1000+1), f} }, "z3-new"},
 	{"z3", func(f string, ms int) []string { return []string{"-smt2", "-T:" + itoa(ms/1000+1), f} }, "/usr/bin/z3"},
+	// E-matching only (no model-based quantifier instantiation): answers unsat or unknown on quantified goals, often at once
+	{"z3-new-ematch", func(f string, ms int) []string {
+		return []string{"-smt2", "-T:" + itoa(ms/1000+1), "smt.mbqi=false", "smt.auto_config=false", f}
+	}, "z3-new"},
 	{"cvc5", func(f string, ms int) []string {
 		return []string{"--lang=smt2", "--tlimit=" + itoa(ms), f}
 	}, "cvc5"},
